@@ -206,6 +206,12 @@ EndMarkersDue(s, req, cfg) ==
   IF ~cfg.endMarker THEN {}
   ELSE {[peer |-> s.fars[req.ufar[i].id].peer, teid |-> s.fars[req.ufar[i].id].teid, src |-> s.fars[req.ufar[i].id].tsrc] :
           i \in {j \in 1..Len(req.ufar) : req.ufar[j].id \in DOMAIN s.fars /\ req.ufar[j].fp /\ req.ufar[j].sndem}}
+\* one marker per such rule: several rules may have used the same tunnel, so the markers due form a bag;
+\* EndMarkersDueTo(s, req, cfg, t) is the number of rules whose old tunnel is t
+EndMarkersDueTo(s, req, cfg, t) ==
+  IF ~cfg.endMarker THEN 0
+  ELSE Cardinality({j \in 1..Len(req.ufar) : req.ufar[j].id \in DOMAIN s.fars /\ req.ufar[j].fp /\ req.ufar[j].sndem /\
+                      [peer |-> s.fars[req.ufar[j].id].peer, teid |-> s.fars[req.ufar[j].id].teid, src |-> s.fars[req.ufar[j].id].tsrc] = t})
 
 ----------------------------------------------------------------------------
 (* Allocators (set based; C06, C07) *)
